@@ -26,10 +26,17 @@
 
 void COSdoInit(CO_SDO *srv, CO_NODE *node)
 {
-    uint8_t n;
+    CO_IF_FRM *frm;
+    uint8_t    n;
 
     for (n=0; n < CO_SSDO_N; n++) {
+        /* a reset may be requested from within the processing of an SDO
+         * request (application callback): the response to the request in
+         * work is still composed in its frame
+         */
+        frm = srv[n].Frm;
         COSdoReset (srv, n, node);
+        srv[n].Frm = frm;
         COSdoEnable(srv, n);
     }
 }
